@@ -20,10 +20,35 @@ CHECKS = {
         "Every generated fit (class x solver x spectrum x shape x scale 1e-8..1e8 x flags) is compared with an independent eigen-decomposition of the independently preprocessed input; exact-solver paths at 1e-9, randomised paths two-sided at 1e-6 where the method promises accuracy and one-sided (interlacing, Eckart-Young) always.",
         "5/C01",
     ),
+    "C09": (
+        "reference-model monitor: independent fractionally whitened cross-covariance (eigh powers, 1/(N-1)) + QR/SVD canonical correlations + Pearson oracle for every reported correlation/pattern",
+        "Every generated cross-set fit (MCA/CCA/RDA/CPCCA x real/Complex/Hilbert x alpha in [0,1]^2 x PCA on/off x n_modes) is compared with the oracle: reported singular values proportional to sigma(K) with the factor (N/(N-1))^((2-ax-ay)/2), score cross-covariance diagonal, MCA orthonormality and SCF, CCA canonical correlations, every correlation within [-1,1] and equal to np.corrcoef.",
+        "5/C09",
+    ),
+    "C10": (
+        "relation monitor between two executions (named method vs general method, model pairs on the same data), per-mode sign/phase aligned where the statement allows it",
+        "Each listed pair (MCA/CCA/RDA vs CPCCA at the special alpha, MCA(X,X) vs EOF, Complex-on-real vs real, ExtendedEOF(embedding=1) vs EOF, SparsePCA(0,0) vs EOF, PCA 'all' vs none, multi-set vs cross-set CCA) is fitted on generated data with drawn free parameters and compared at 1e-9 (1e-4 for the regularised multi-set solver).",
+        "5/C10",
+    ),
+    "C11": (
+        "relation monitor (rotated vs unrotated reconstruction) + icontract post-conditions on _varimax/_promax (R unitary, Xrot = X R) + capture wrapper on promax for the sign/ordering oracle",
+        "For every base model x rotator x power 1-4 x spectrum class the rotator's reconstruction is compared with the unrotated one, ordering/sign convention/unitarity/variance conservation/Varimax criterion are asserted where the statement and the mathematics support them (power 1 only for the orthogonal-rotation clauses).",
+        "5/C11",
+    ),
     "C12": (
         "trace checker over dask scheduler events (harness-owned scheduler callable + dask Callback with injected sleeps) + relation monitor dask fit vs numpy fit",
         "Every scheduler entry during fit(compute=False, check_nans=False) / rotator.fit(compute=False) is an observed event carrying the innermost xeofs frame (must be zero); results must be dask-backed before and numpy after compute(); the computed model is compared with the numpy fit for every class x chunk layout x scheduler (sync, 1/2/4/16 threads, injected delays); evidence lists the distinct task-completion orders actually observed.",
         "5/C12",
+    ),
+    "C15": (
+        "reference-model monitor (eigvalsh threshold oracle, principal angles) + back-end trace (which SVD routine ran, which kwargs/seed arrived) + bit-identity relation between seeded runs + icontract post-conditions on Decomposer/_SVD",
+        "Threshold count, exact-vs-randomised agreement on gapped spectra, 'auto' selecting only between the two back-ends (trace + bit-identity with one of them), seed reproducibility for numpy/complex/dask, sign convention, and solver_kwargs pass-through for every class advertising them are decided on generated matrices with prescribed spectra.",
+        "5/C15",
+    ),
+    "C16": (
+        "reference-model monitor (independent eigh fractional powers) + icontract post-conditions on Whitener.fit / PCA.fit (T, Tinv Hermitian and mutually inverse, V orthonormal)",
+        "Whitener and PCA are driven directly on centred matrices (n>p, cond up to 1e6, real/complex, alpha in [0,1], numpy and dask): cov(Xw)=C^alpha, round trips of data and patterns, T/Tinv algebra and the leading subspace are compared with the oracle.",
+        "5/C16",
     ),
     "C17": (
         "fault enumeration: single-fault mutations of valid calls, exception-or-return observed at the API boundary",
